@@ -21,7 +21,7 @@ ASSUMPTIONS = ['terminal edges of the two grammars have disjoint ids (a Graph ca
 
 
 def plan(tier, seed):
-    return dict(n=500 if tier == 'quick' else 150000, budget_s=75 if tier == 'quick' else 840, case_timeout=120)
+    return dict(n=1500 if tier == 'quick' else 150000, budget_s=75 if tier == 'quick' else 840, case_timeout=120)
 
 
 def gen_pair(fggs, rng, mode):
